@@ -14,6 +14,7 @@ import (
 	"errors"
 	"fmt"
 	"os"
+	"runtime"
 	"sort"
 	"strings"
 	"testing"
@@ -1028,6 +1029,16 @@ func callRecover(f func()) (panicked string) {
 }
 
 func (rn *runner) runBehaviour(b behaviour) {
+	// a behaviour that does not finish (a goroutine of the component or of the harness is wedged) must not hold the whole
+	// batch until the outer timeout: the child ends here, the parent attributes the death to the last begun step and goes on
+	hangGuard := time.AfterFunc(120*time.Second, func() {
+		rn.out.Emit(vc.M{"kind": "hang", "beh": b.ID})
+		rn.out.Flush()
+		buf := make([]byte, 1<<20)
+		os.Stderr.Write(buf[:runtime.Stack(buf, true)])
+		os.Exit(3)
+	})
+	defer hangGuard.Stop()
 	w := rn.w
 	stores := newRecStores(w.HashScheme)
 	for id, d := range w.Def.Valsets {
